@@ -161,15 +161,22 @@ Definition chords_fire (d : dc) (steps : list hstep) : bool :=
 Definition begins_none (d : dc) (u : key) : bool :=
   forallb (fun p => match fst p with k :: _ => negb (key_eqb k u) | [] => true end) d.
 
-(* one handle() call: `pending` is the implementation's chord vector before the call *)
-Definition english_step (d : dc) (pending : list key) (steps : list hstep) : bool :=
+(* one handle() call.  `pending`: the keys pending before the call according to the dictionary-level
+   matcher (spec_handle, used here as bookkeeping only: what must be ANSWERED is read off the clauses).
+   `literal`: evaluate clause B as the property text words it, for every pending state; otherwise it is
+   skipped exactly in the class of the known finding: the unbound key continues the pending chord
+   (pending ++ [k] is a proper prefix of a bound chord). *)
+Definition in_class (d : dc) (pending : list key) (k : key) : bool :=
+  begins_none d k && match spec_lookup key_cmp d (pending ++ [k]) with Continue => true | _ => false end.
+
+Definition english_step (literal : bool) (d : dc) (pending : list key) (steps : list hstep) : bool :=
   match steps with
   | [] => true
   | (k, f, _) :: rest =>
       (* typed from an idle state, a bound chord fires exactly at its last key *)
       (match pending with [] => chords_fire d steps | _ => true end)
       (* an unbound key never prevents the chord typed immediately after it from firing *)
-      && (if begins_none d k then chords_fire d rest else true)
+      && (if begins_none d k && (literal || negb (in_class d pending k)) then chords_fire d rest else true)
       (* and only bound chords fire: the pending keys plus this key, or this key alone *)
       && (match f with
           | Some v => mem_binding (pending ++ [k], v) d || mem_binding ([k], v) d
@@ -178,8 +185,9 @@ Definition english_step (d : dc) (pending : list key) (steps : list hstep) : boo
   end.
 
 (* does the implementation's observation satisfy the property, given the dictionaries?
-   (t0 / t1 of the state: the implementation's own chord vector after its last handle call) *)
-Definition spec_step (s : sstate) (o : op) (ops : list op) (impl : list obs) : sstate * bool :=
+   (t0 / t1 of the state: the pending keys of the dictionary-level matcher, NOT the chord vector the
+   implementation reports: a stale vector must not make the "idle" clause vacuous) *)
+Definition spec_step (literal : bool) (s : sstate) (o : op) (ops : list op) (impl : list obs) : sstate * bool :=
   match o, impl with
   | ORegister m c v, BOld _ :: _ => (set_d s m (reg key_cmp c v (get_d s m)), true)
   | OLookup m c, BRes r :: _ =>
@@ -189,16 +197,26 @@ Definition spec_step (s : sstate) (o : op) (ops : list op) (impl : list obs) : s
           end)
   | OForEach m, BList l :: _ => (s, same_bindings l (get_d s m))
   | OOverride d r, BUnit :: _ => (set_d s d (spec_override key_cmp (get_d s d) (get_d s r)), true)
-  | OHandle m k, BHandle _ st' _ :: _ =>
-      (set_t s m st', english_step (get_d s m) (get_t s m) (handle_run m ops impl))
+  | OHandle m k, BHandle _ _ _ :: _ =>
+      (set_t s m (fst (spec_handle key_cmp (get_d s m) (get_t s m) k)),
+       english_step literal (get_d s m) (get_t s m) (handle_run m ops impl))
   | OClear m, BUnit :: _ => (set_t (set_d s m []) m [], true)
   | _, _ => (s, false)
   end.
 
-Fixpoint spec_exec (s : sstate) (ops : list op) (impl : list obs) : bool :=
+Fixpoint spec_exec (literal : bool) (s : sstate) (ops : list op) (impl : list obs) : bool :=
   match ops, impl with
   | [], [] => true
-  | o :: r, _ :: bs => let '(s', ok) := spec_step s o ops impl in ok && spec_exec s' r bs
+  | o :: r, _ :: bs => let '(s', ok) := spec_step literal s o ops impl in ok && spec_exec literal s' r bs
+  | _, _ => false
+  end.
+
+(* does the history contain a step of the known-finding class?  (decided on the dictionary side) *)
+Fixpoint has_class_step (s : sstate) (ops : list op) (impl : list obs) : bool :=
+  match ops, impl with
+  | o :: r, _ :: bs =>
+      (match o with OHandle m k => in_class (get_d s m) (get_t s m) k | _ => false end)
+      || has_class_step (fst (spec_step false s o ops impl)) r bs
   | _, _ => false
   end.
 
@@ -258,6 +276,9 @@ Definition oracle_entry_ok (p : str * str) : bool :=
 
 Inductive c18_case :=
 | CMap (ops : list op) (impl : list obs)
+| CMapLiteral (ops : list op) (impl : list obs)
+    (* the same history judged by the clauses exactly as the property text words them (clause B for every
+       pending state): fails in the class of the known finding C18-unbound-key-inside-chord *)
 | CParse (k : pkind) (s : str) (tbl : list (str * str))
          (parsed : pout) (printed : str) (reparsed : pout)
     (* parsed = s.parse(); when Ok(v): printed = v.to_string(), reparsed = printed.parse() *)
@@ -283,7 +304,16 @@ Definition c18_check (c : c18_case) : bool * bool :=
   match c with
   | CMap ops impl =>
       (list_eqb obs_eqb (model_exec init_m ops) impl,
-       spec_exec init_s ops impl)
+       spec_exec false init_s ops impl)
+  | CMapLiteral ops impl =>
+      (* a failure here is attributed to the class (first component stays true, so that the known
+         finding with require_agree covers it) only if the model reproduces the observations, the history
+         has a step of the class, and everything but the literal clause B holds; any other failure makes
+         the first component false and is reported *)
+      (list_eqb obs_eqb (model_exec init_m ops) impl
+       && (spec_exec true init_s ops impl
+           || (has_class_step init_s ops impl && spec_exec false init_s ops impl)),
+       spec_exec true init_s ops impl)
   | CParse k s tbl parsed printed reparsed =>
       let lower := table_lower tbl in
       (pout_eqb (model_parse lower k s) parsed
